@@ -135,7 +135,7 @@ def edit(rng, d):
         return ('add-attr', c.kl, ty)
     if k == 'add-enum':
         n, vals, w = d.enums[0]
-        vals.insert(rng.randint(0, len(vals)), 'E%d' % rng.randrange(1000))
+        vals.insert(rng.randint(0, len(vals)), rng.choice(('E%d' % rng.randrange(1000), 'global', 'True', 'is')))
         return ('add-enumerator', n)
     if k == 'reorder-enum':
         n, vals, w = d.enums[0]
@@ -175,7 +175,8 @@ def move(rng, d):
 
 def one_diagram(ctx, rng, tmpdir):
     d = c14.random_diagram(rng, derived_keys=True)
-    d.enums.append(('Local_Enum', ['L1', 'L2'], 'comp'))
+    # enumerators are declared under their modeled names, also when such a name is a word of Python
+    d.enums.append(('Local_Enum', ['L1', 'L2'] if rng.random() < 0.5 else ['L1', 'pass', 'None', 'L2', 'class'], 'comp'))
     for c in d.classes:
         if rng.random() < 0.3:
             ctx.hit('Xsd.attribute-of-unsupported-data-type')
